@@ -70,6 +70,10 @@ def run(tier, seed):
                 # content check against a decode of the same prefix block by block is the model's job (exact comparison); here: success must not hold foreign content
             else:
                 b.emit("kdec k t %s %s%s" % (kind, supply, ex), inside_cut(c))
+            # the encoding of an exact-statistics sketch is also a valid input of the plain decoder (C07), which skips the statistics blocks:
+            # its cuts must fail the same way there (mapping supplied, so that a missing mapping cannot mask an absorbed prefix)
+            if exact and c not in bounds and rng.random() < 0.5:
+                b.emit("kdec kp t %s %s" % (kind, spec), inside_cut(c))
         # undefined flags substituted at block boundaries
         undefined = [f for f in range(256) if not wire.defined_flag(f)]
         for pos in bounds[:-1]:
